@@ -236,9 +236,11 @@ def handle (M : Mode R) (s : State R) (j : Json) : Except String (State R × Jso
       let c ← s.get (← getStr j "id")
       let θ := thetaFn (← parseTheta M j)
       let rows ← parseRows M j "X"
-      let outs ← c.denote A θ
+      let useAbs := getBoolD j "abs" false
+      let pre : R → R := if useAbs then A.absv else id
+      let outs ← c.denote A θ pre
       let res := rows.map fun row =>
-        Json.arr (outs.toArray.map fun n => showArr A (n.evalV A.toOps (rowFn A row)))
+        Json.arr (outs.toArray.map fun n => showArr A (n.evalV A.toOps (rowFn A (row.map pre))))
       pure (s, Json.mkObj [("ok", Json.arr res.toArray)])
   | "op_eval" => do
       -- model operator applied to the denotation of the operand, evaluated on rows
